@@ -209,4 +209,9 @@ def run (h : Heap) (t : Nat) : List Op → List Obs
   | [] => []
   | o :: os => (step h t o).2 :: run (step h t o).1 (t + 1) os
 
+/-- The heap after a history. -/
+def after (h : Heap) (t : Nat) : List Op → Heap
+  | [] => h
+  | o :: os => after (step h t o).1 (t + 1) os
+
 end Martian.HarLog
